@@ -679,6 +679,7 @@ program_t *load_binary (const char *name) {
     {
       opt_trace (TT_COMPILE|1, "failed reading program struct");
       fclose (f);
+      FREE (p);
       FREE (buf);
       return OUT_OF_DATE;
     }
@@ -878,41 +879,24 @@ program_t *load_binary (const char *name) {
 
   /*
    * [READ_LINE_NUMBERS]
-   * Read line numbers.
+   * Read line numbers.  The pointers in the saved structure are those of the
+   * process that wrote the file: never keep them.  A file that ends here, or
+   * anywhere below, was not written completely and is not used.
    */
-  if (fread ((char *) &bin_count, sizeof (bin_count), 1, f) == 1)
+  p->file_info = 0;
+  p->line_info = 0;
+  if (fread ((char *) &bin_count, sizeof (bin_count), 1, f) != 1)
+    goto corrupted;
+  len = (size_t) bin_count;
+  if (len > 0)
     {
-      len = (size_t) bin_count;
+      if (len < 2 * sizeof (short))
+        goto corrupted;
       p->file_info = (unsigned short *) DXALLOC (len, TAG_LINENUMBERS, "load binary");
-      if (fread ((char *) p->file_info, len, 1, f) == 1)
-        {
-          p->line_info = (unsigned char *) &p->file_info[p->file_info[1]];
-        }
-      else
-        {
-          opt_trace (TT_COMPILE|1, "line number info corrupted.");
-          i = p->num_functions_defined;
-          while (i-- > 0)
-            {
-              free_string (p->function_table[i].name);
-            }
-          i = p->num_variables_defined;
-          while (i-- > 0)
-            {
-              free_string (p->variable_table[i]);
-            }
-          i = p->num_strings;
-          while (i-- > 0)
-            {
-              free_string (p->strings[i]);
-            }
-          fclose (f);
-          free_string (p->name);
-          FREE (p->file_info);
-          FREE (p);
-          FREE (buf);
-          return OUT_OF_DATE;
-        }
+      if (fread ((char *) p->file_info, len, 1, f) != 1
+          || p->file_info[1] * sizeof (short) > len)
+        goto corrupted;
+      p->line_info = (unsigned char *) &p->file_info[p->file_info[1]];
     }
   opt_trace (TT_COMPILE|3, "loaded line number info ok.");
 
@@ -920,17 +904,46 @@ program_t *load_binary (const char *name) {
    * [READ_PATCHES]
    * Read patch information and fix up program.
    */
-  if (fread ((char *) &bin_count, sizeof (bin_count), 1, f) == 1)
+  if (fread ((char *) &bin_count, sizeof (bin_count), 1, f) != 1)
+    goto corrupted;
+  len = (size_t) bin_count;
+  if (len > 0)
     {
-      len = (size_t) bin_count;
       ALLOC_BUF (len);
-      if (fread (buf, len, 1, f) == 1)
-        {
-          /* fix up some stuff */
-          patch_in (p, (short *) buf, len / sizeof (short));
-        }
+      if (fread (buf, len, 1, f) != 1)
+        goto corrupted;
+      /* fix up some stuff */
+      patch_in (p, (short *) buf, len / sizeof (short));
     }
   opt_trace (TT_COMPILE|3, "applied patches ok.");
+
+  if (0)
+    {
+    corrupted:
+      opt_trace (TT_COMPILE|1, "line number info or patches corrupted.");
+      i = p->num_functions_defined;
+      while (i-- > 0)
+        {
+          free_string (p->function_table[i].name);
+        }
+      i = p->num_variables_defined;
+      while (i-- > 0)
+        {
+          free_string (p->variable_table[i]);
+        }
+      i = p->num_strings;
+      while (i-- > 0)
+        {
+          free_string (p->strings[i]);
+        }
+      fclose (f);
+      free_string (p->name);
+      if (p->file_info)
+        FREE (p->file_info);
+      FREE (p);
+      FREE (buf);
+      return OUT_OF_DATE;
+    }
 
   fclose (f);
   FREE (buf);
